@@ -625,6 +625,11 @@ namespace bloch::runtime {
             runtimeInheritanceDistance(v.objectValue->cls->name, declaredClass) >= 0) {
             v.className = declaredClass;
         }
+        // a null stored in a declared slot has that slot's static class too
+        if (v.type == Value::Type::Object && !v.objectValue && !declaredClass.empty() &&
+            findClass(declaredClass)) {
+            v.className = declaredClass;
+        }
         return v;
     }
 
@@ -869,7 +874,9 @@ namespace bloch::runtime {
             case Value::Type::Qubit:
                 return actual.type == Value::Type::Qubit ? std::optional<int>(0) : std::nullopt;
             case Value::Type::Object: {
-                if (isNullReference(actual))
+                // the null literal fits any class; a null held in a typed slot is resolved by that
+                // slot's static class, like any other reference
+                if (isNullReference(actual) && actual.className.empty())
                     return 3;
                 if (actual.type != Value::Type::Object)
                     return std::nullopt;
